@@ -76,7 +76,7 @@ func (c10) Thresholds(tier string) map[string]int64 {
 }
 
 func (c10) Rule() string {
-	return "all children run under the Go race detector (reports are counted from GORACE log files by the parent). Case 0 = the built-in <<wait n>> for n in {0, 0.0009, 0.0137, 0.05, 0.25, 0.5, 0.9, 1, 1.25} run in parallel runners, and case 1 = sub-millisecond and odd fractional waits (0.0009, 0.00051, 0.0011, 0.0137, 0.00999, 0.0025) 25 times each, one after the other: completion must not be observed earlier than n seconds after the call that started it (monotonic clock, lower bound only). Every other case = (a) one script with 1-5 commands between lines and sets, each command with a handler shape {" + strings.Join(c10Shapes, ", ") + "} and a completion schedule {complete on return, or complete after p in 1..5 polls} x {nil, sentinel error}: completion is driven by the harness through a gate, so 'pending' is a logical state, not a timing; (b) a real-timing run: 4 runners in parallel goroutines whose handlers sleep 0-2 ms in the bridge goroutine while the driver polls with 0-1 ms pauses. Oracle (a): every Next issued while the gate is closed returns ErrWaitingForCommandCompletion (a 10 s watchdog opens the gate if the call does not return: a call that returns anything else than 'waiting' although it was issued with the gate closed is the violation), with no store write, no probe and no handler invocation during it; after the gate opens, buffered-channel shapes must be observed by the very next Next, goroutine / unbuffered shapes within a bounded number of polls; a reported error surfaces exactly once (errors.Is sentinel) and the dialogue then resumes at the statement after the command; every executed command invoked its handler exactly once with the arguments written. Oracle (b): each runner's elements are the script's lines in order, every handler ran once, zero race reports with a ysgo frame. Non-trivial: >=1 command stayed pending for >=1 poll. Distinct by hash of script+shapes+schedules."
+	return "all children run under the Go race detector (reports are counted from GORACE log files by the parent). Case 0 = the built-in <<wait n>> for n in {0, 0.0009, 0.0137, 0.05, 0.25, 0.5, 0.9, 1, 1.25} run in parallel runners, and case 1 = sub-millisecond and odd fractional waits (0.0009, 0.00051, 0.0011, 0.0137, 0.00999, 0.0025) 25 times each, one after the other: completion must not be observed earlier than n seconds after the call that started it (monotonic clock, lower bound only). Every other case = (a) one script with 1-5 commands between lines and sets, each command with a handler shape {" + strings.Join(c10Shapes, ", ") + "} and a completion schedule {complete on return, or complete after p in 1..5 polls} x {nil, sentinel error}: completion is driven by the harness through a gate, so 'pending' is a logical state, not a timing; (b) an abandon scenario: a pending command is abandoned by RestoreAt, the same command statement is executed again, and the abandoned invocation reports completion (with an error) first - the dialogue must keep waiting for the second invocation and then resume without error; (c) a real-timing run: 4 runners in parallel goroutines whose handlers sleep 0-2 ms in the bridge goroutine while the driver polls with 0-1 ms pauses. Oracle (a): every Next issued while the gate is closed returns ErrWaitingForCommandCompletion (a 10 s watchdog opens the gate if the call does not return: a call that returns anything else than 'waiting' although it was issued with the gate closed is the violation), with no store write, no probe and no handler invocation during it; after the gate opens, buffered-channel shapes must be observed by the very next Next, goroutine / unbuffered shapes within a bounded number of polls; a reported error surfaces exactly once (errors.Is sentinel) and the dialogue then resumes at the statement after the command; every executed command invoked its handler exactly once with the arguments written. Oracle (b): each runner's elements are the script's lines in order, every handler ran once, zero race reports with a ysgo frame. Non-trivial: >=1 command stayed pending for >=1 poll. Distinct by hash of script+shapes+schedules."
 }
 
 func (c10) Assumptions() []string {
@@ -245,8 +245,148 @@ func (p c10) Run(c *core.Ctx) {
 	}
 	p.gated(c)
 	if !c.Failed() {
+		p.abandoned(c)
+	}
+	if !c.Failed() {
 		p.realTiming(c)
 	}
+}
+
+// abandoned: a pending command is abandoned by RestoreAt, the same command statement is executed
+// again, and the ABANDONED invocation reports completion first (with an error): that stale completion
+// belongs to nothing the dialogue is waiting for.
+func (p c10) abandoned(c *core.Ctx) {
+	r := c.R
+	shape := []int{2, 3, 0, 4}[r.Intn(4)] // func(), func() error, raw buffered, func() chan error
+	script := "title: Start\n---\nbefore\n<<work w 1.5 true>>\nafter\n===\n"
+	rr, err, pan := mon.Create(nil, "", []string{script})
+	if err != nil || pan != "" {
+		c.Violate("the abandon script failed to load", map[string]any{"error": fmt.Sprint(err), "panic": pan})
+		return
+	}
+	// every invocation gets its own gate / channel
+	type inv struct {
+		gate chan struct{}
+		ch   chan error
+		fail bool
+	}
+	var mu sync.Mutex
+	var invs []*inv
+	newInv := func() *inv {
+		mu.Lock()
+		defer mu.Unlock()
+		v := &inv{gate: make(chan struct{}), ch: make(chan error, 1), fail: len(invs) == 0}
+		invs = append(invs, v)
+		return v
+	}
+	numInvs := func() int { mu.Lock(); defer mu.Unlock(); return len(invs) }
+	getInv := func(i int) *inv { mu.Lock(); defer mu.Unlock(); return invs[i] }
+	res := func(v *inv) error {
+		if v.fail {
+			return errSentinel
+		}
+		return nil
+	}
+	var regErr error
+	switch shape {
+	case 2:
+		regErr = rr.DR.ConvertAndAddCommand("work", func(id string, n float64, f bool) { v := newInv(); <-v.gate })
+	case 3:
+		regErr = rr.DR.ConvertAndAddCommand("work", func(id string, n float64, f bool) error { v := newInv(); <-v.gate; return res(v) })
+	case 0:
+		rr.DR.AddCommand("work", func(a []*variable.Value) <-chan error { return newInv().ch })
+	default:
+		regErr = rr.DR.ConvertAndAddCommand("work", func(id string, n float64, f bool) chan error { return newInv().ch })
+	}
+	if regErr != nil {
+		c.Violate("registering a handler of a supported shape failed: "+regErr.Error(), nil)
+		return
+	}
+	complete := func(v *inv) {
+		if shape == 2 || shape == 3 {
+			close(v.gate)
+		} else {
+			v.ch <- res(v)
+		}
+	}
+	var trace []string
+	step := func() mon.Obs {
+		o := rr.Once(0)
+		trace = append(trace, "Next = "+o.String())
+		return o
+	}
+	fail := func(what string) {
+		c.Violate("abandoned command: "+what, map[string]any{"readers": []string{script}, "shape": c10Shapes[shape], "trace": trace})
+	}
+	waitInvs := func(n int) bool {
+		for w := 0; w < 20000; w++ {
+			if numInvs() >= n {
+				return true
+			}
+			time.Sleep(100 * time.Microsecond)
+		}
+		return false
+	}
+	snap := rr.DR.Snapshot()
+	if o := step(); o.Kind != mon.KLine {
+		fail("want the first line, got " + o.String())
+		return
+	}
+	if o := step(); o.Kind != mon.KWaiting {
+		fail("the command has not reported completion, but Next returned " + o.String())
+		return
+	}
+	if !waitInvs(1) {
+		fail("the handler was not invoked")
+		return
+	}
+	if err := rr.DR.RestoreAt(snap); err != nil {
+		fail("RestoreAt failed: " + err.Error())
+		return
+	}
+	trace = append(trace, "RestoreAt(initial snapshot) while the command is pending")
+	if o := step(); o.Kind != mon.KLine || o.Text != "before" {
+		fail("after the restore, want the first line again, got " + o.String())
+		return
+	}
+	if o := step(); o.Kind != mon.KWaiting {
+		fail("the second execution of the command has not reported completion, but Next returned " + o.String())
+		return
+	}
+	if !waitInvs(2) {
+		fail("the handler was not invoked for the second execution of the command statement")
+		return
+	}
+	// the abandoned invocation completes now, with an error
+	complete(getInv(0))
+	trace = append(trace, "(the ABANDONED first invocation reports completion with an error)")
+	time.Sleep(2 * time.Millisecond)
+	for k := 0; k < 5; k++ {
+		if o := step(); o.Kind != mon.KWaiting {
+			fail("the completion of an abandoned invocation was taken for the completion of the pending one: Next returned " + o.String())
+			return
+		}
+	}
+	complete(getInv(1))
+	trace = append(trace, "(the second invocation reports completion without error)")
+	var o mon.Obs
+	for k := 0; k < 20000; k++ {
+		o = rr.Once(0)
+		if o.Kind != mon.KWaiting {
+			break
+		}
+		time.Sleep(100 * time.Microsecond)
+	}
+	trace = append(trace, "Next = "+o.String())
+	if o.Kind != mon.KLine || o.Text != "after" {
+		fail("after the pending invocation completed without error, want the line after the command, got " + o.String())
+		return
+	}
+	if numInvs() != 2 {
+		fail(fmt.Sprintf("the handler was invoked %d times for 2 executed command statements", numInvs()))
+		return
+	}
+	c.Feature("abandoned-invocation-completes-late")
 }
 
 func (p c10) gated(c *core.Ctx) {
@@ -575,11 +715,21 @@ func (p c10) realTiming(c *core.Ctx) {
 				returned.Add(1)
 				return nil
 			}
-			if e := rr.DR.ConvertAndAddCommand("work0", h0); e != nil {
+			// every other runner uses handlers that touch nothing the harness shares with them (they only
+			// sleep): the counters above are synchronisation the race detector would honour, and could hide a
+			// race between the runner and the bridge goroutine
+			pure := g%2 == 1
+			var c0, c1 any = h0, h1
+			if pure {
+				d0, d1 := sleeps[0], sleeps[1%len(sleeps)]
+				c0 = func(id string, x float64, f bool) { time.Sleep(d0) }
+				c1 = func(id string, x float64, f bool) error { time.Sleep(d1); return nil }
+			}
+			if e := rr.DR.ConvertAndAddCommand("work0", c0); e != nil {
 				res[g].err = e.Error()
 				return
 			}
-			if e := rr.DR.ConvertAndAddCommand("work1", h1); e != nil {
+			if e := rr.DR.ConvertAndAddCommand("work1", c1); e != nil {
 				res[g].err = e.Error()
 				return
 			}
@@ -589,7 +739,7 @@ func (p c10) realTiming(c *core.Ctx) {
 				o := rr.Once(0)
 				switch o.Kind {
 				case mon.KWaiting:
-					if int(calls.Load()) > 2*line+2 {
+					if !pure && int(calls.Load()) > 2*line+2 {
 						res[g].err = fmt.Sprintf("handlers invoked %d times after %d rounds of two commands", calls.Load(), line)
 						return
 					}
@@ -609,7 +759,7 @@ func (p c10) realTiming(c *core.Ctx) {
 						return
 					}
 					line++
-					if int(calls.Load()) != 2*line {
+					if !pure && int(calls.Load()) != 2*line {
 						res[g].err = fmt.Sprintf("after line %d the handlers were invoked %d times, want %d", line, calls.Load(), 2*line)
 						return
 					}
